@@ -19,6 +19,12 @@ from vlib import Infra, log, read_ndjson
 
 NMENU = 31
 FUZZ_ITEMS = [1, 6, 7, 8, 10, 12, 13, 16, 20]
+# menu items that are or contain a list / leaf-list (EncodingSets.Menu); only used to make sure that some of the
+# larger schemas hold collections next to other nodes, the sized trees themselves come from EncodingSets.SizedTrees
+COLLECTIONS = [13, 14, 15, 16, 17, 23, 25, 27, 28, 29, 30, 31]
+# entries per collection in the sized trees: around the thresholds at which sort / hash / buffer strategies change
+SIZES = "{1, 2, 12, 13, 20, 40, 100}"
+SIZES_MANY = "{2, 13, 40}"        # schemas with two and more items
 
 
 def set_lit(sets):
@@ -37,6 +43,11 @@ def schema_sets(ctx):
         big = rnd.sample(triples, 6) + [tuple(sorted(rnd.sample(range(1, NMENU + 1), 8)))]
     else:
         big = rnd.sample(triples, 150) + [tuple(sorted(rnd.sample(range(1, NMENU + 1), k))) for k in (5, 8, 12, NMENU)]
+    # collections among many siblings: two collections and four other items; every item of the menu
+    others = [i for i in range(1, NMENU + 1) if i not in COLLECTIONS]
+    big.append(tuple(sorted(rnd.sample(COLLECTIONS, 2) + rnd.sample(others, 4))))
+    if tuple(range(1, NMENU + 1)) not in big:
+        big.append(tuple(range(1, NMENU + 1)))
     return singles, pairs, big
 
 
@@ -131,11 +142,11 @@ def run(ctx):
 
     # 1. exhaustive model on the spec
     ctx.tlc("EncodingMC", "EncodingMC.cfg", workers=12, timeout=3000, heap="8g",
-            consts={"Sets": set_lit(exh), "MutMax": 1})
+            consts={"Sets": set_lit(exh), "MutMax": 1, "Sizes": SIZES, "SizesMany": SIZES_MANY, "ManyMin": 2})
     # 2. generator: schemas, trees, mutants, alphabets
     g = ctx.tlc("EncodingGen", "EncodingGen.cfg", workers=12, timeout=3000, heap="8g",
                 consts={"Sets": set_lit(exh + big), "MutMax": 1, "ExhMax": 2,
-                        "RandPer": 40 if ctx.quick() else 150, "Fuzz": "TRUE",
+                        "RandPer": 40 if ctx.quick() else 150, "Fuzz": "TRUE", "Sizes": SIZES, "SizesMany": SIZES_MANY, "ManyMin": 2,
                         "MutAll": "FALSE" if ctx.quick() else "TRUE"},
                 extra=["-seed", str(ctx.seed)])
     vecs = sorted(os.path.join(g["dir"], f) for f in os.listdir(g["dir"]) if re.match(r"vec(_\d+)+\.ndjson$", f))
